@@ -264,6 +264,27 @@ impl GossipNodeState {
             self.incarnation > other.incarnation
         }
     }
+
+    /// Deterministic tie-break for states with equal incarnation and timestamp.
+    ///
+    /// Different reporters can stamp conflicting observations of one member with the same
+    /// Lamport time; without a tie-break the merged view would depend on delivery order.
+    /// The more severe health wins (as in SWIM: suspect overrides alive, failed overrides both).
+    const fn wins_tie(&self, other: &Self) -> bool {
+        self.incarnation == other.incarnation
+            && self.timestamp == other.timestamp
+            && health_severity(self.health) > health_severity(other.health)
+    }
+}
+
+/// Severity rank of a health state, used only to break merge ties.
+const fn health_severity(health: NodeHealth) -> u8 {
+    match health {
+        NodeHealth::Unknown => 0,
+        NodeHealth::Healthy => 1,
+        NodeHealth::Degraded => 2,
+        NodeHealth::Failed => 3,
+    }
 }
 
 /// Gossip protocol messages.
@@ -332,13 +353,14 @@ impl LWWMembershipState {
 
     /// Advance Lamport time and return new value.
     pub fn tick(&mut self) -> u64 {
-        self.lamport_time += 1;
+        self.lamport_time = self.lamport_time.saturating_add(1);
         self.lamport_time
     }
 
     /// Update Lamport time from incoming message.
     pub fn sync_time(&mut self, incoming_time: u64) {
-        self.lamport_time = self.lamport_time.max(incoming_time) + 1;
+        // Saturate: a peer-supplied u64::MAX must not wrap the clock back to 0
+        self.lamport_time = self.lamport_time.max(incoming_time).saturating_add(1);
     }
 
     #[must_use]
@@ -366,7 +388,7 @@ impl LWWMembershipState {
 
         for state in incoming {
             let should_update = self.states.get(&state.node_id).map_or(true, |existing| {
-                let supersedes = state.supersedes(existing);
+                let supersedes = state.supersedes(existing) || state.wins_tie(existing);
                 if supersedes {
                     tracing::debug!(
                         node_id = %state.node_id,
